@@ -136,7 +136,7 @@ func (in *Interp) runnable() []*Goroutine {
 // schedPoint is called before visible operations. In Mode B it may preempt the
 // current goroutine (bounded by cfg.Preempt).
 func (in *Interp) schedPoint(g *Goroutine, what string) {
-	if in.cfg.Sched != "B" || in.preempts >= in.cfg.Preempt || g != in.cur {
+	if in.cfg.Sched != "B" || in.preempts >= in.cfg.Preempt || g != in.cur || in.noPreempt > 0 {
 		return
 	}
 	if g.skipSched {
@@ -196,8 +196,21 @@ func (in *Interp) pickNext() *Goroutine {
 	if len(rs) == 0 {
 		return nil
 	}
-	if in.cfg.Sched == "B" && len(rs) > 1 {
+	if in.cfg.Sched == "B" && len(rs) > 1 && in.cfg.BlockChoice {
 		return rs[in.decideFree(len(rs))]
+	}
+	// non-preemptive switches are deterministic: next runnable goroutine in id order
+	// after the one that just stopped (round robin); only preemptions are explored.
+	last := -1
+	if in.cur != nil {
+		last = in.cur.id
+	}
+	if in.cfg.Sched == "B" {
+		for _, r := range rs {
+			if r.id > last {
+				return r
+			}
+		}
 	}
 	return rs[0]
 }
@@ -511,10 +524,15 @@ func (in *Interp) execSelect(g *Goroutine, fr *Frame, x *ssa.Select) {
 		in.block(g, ops)
 	}
 	k := ready[0]
-	if len(ready) > 1 && in.cfg.Sched == "B" {
+	if len(ready) > 1 && in.cfg.SelectAll {
 		k = ready[in.decideFree(len(ready))]
-	} else if len(ready) > 1 && in.cfg.SelectAll {
-		k = ready[in.decideFree(len(ready))]
+	} else if len(ready) > 1 && in.cfg.Sched == "B" && in.preempts < in.cfg.Preempt && in.noPreempt == 0 {
+		// a non-first ready case is a scheduling choice and is charged to the same budget
+		c := in.decideFree(len(ready))
+		if c != 0 {
+			in.preempts++
+		}
+		k = ready[c]
 	}
 	st := x.States[k]
 	if st.Dir == types.SendOnly {
